@@ -338,6 +338,15 @@ def prep_fexjac(desc, method):
     return cmd, exe
 
 
+def rewrite_launches(text: str) -> str:
+    """`Kernel<<<grid, block, shmem, stream>>>(args)` -> `SHIM_LAUNCH(Kernel, grid, block, args)` (cuda_shim.h runs the threads of
+    the launch one after the other); nothing else of the rendered file is touched"""
+    def one(m):
+        cfg = [c.strip() for c in m.group(2).split(",")]
+        return f"SHIM_LAUNCH({m.group(1)}, {cfg[0]}, {cfg[1] if len(cfg) > 1 else '1'}, "
+    return re.sub(r"(\b\w+)\s*<<<([^;]*?)>>>\s*\(", one, text)
+
+
 def prep_cusparse(desc):
     """render `desc` for cvode/cusparse (gpu); the kernel launches `Kernel<<<...>>>(args)` are rewritten to plain calls in copies of
     the two rendered files (nothing else is touched) and compiled by g++ against the CUDA stand-in header; returns (compile
@@ -346,7 +355,7 @@ def prep_cusparse(desc):
     srcs = list(consts)
     for f in ("naunet_fex", "naunet_jac"):
         text = (d / "src" / f"{f}.cu").read_text()
-        text = re.sub(r"(\b\w+)\s*<<<[^;]*?>>>\s*\(", r"\1(", text)
+        text = rewrite_launches(text)
         (d / "src" / f"{f}_host.cpp").write_text(text)
         srcs.append(str(d / "src" / f"{f}_host.cpp"))
     phys = d / "src" / ("naunet_physics.cu" if (d / "src" / "naunet_physics.cu").exists() else "naunet_physics.cpp")
@@ -383,11 +392,12 @@ def compile_all(cmds):
         return list(ex.map(one, cmds))
 
 
-def run_fexjac(exe, rows, per_case=1):
+def run_fexjac(exe, rows, per_case=1, threads=None):
     """run a Fex / Jac driver on the input rows (lists of numbers); returns ([{"F", "J", "S", "J_ok"}], None) or (None, diagnostic)"""
     import subprocess
     inp = "\n".join(" ".join(repr(float(x)) for x in row) for row in rows) + "\n"
-    r = subprocess.run([str(exe)], input=inp, stdout=subprocess.PIPE, stderr=subprocess.STDOUT, text=True, timeout=120)
+    env = dict(os.environ, SHIM_THREADS=str(threads)) if threads else None
+    r = subprocess.run([str(exe)], input=inp, stdout=subprocess.PIPE, stderr=subprocess.STDOUT, text=True, timeout=120, env=env)
     out, cur = [], None
     for line in r.stdout.splitlines():
         t = line.split()
